@@ -75,6 +75,11 @@ func (enc *Encoder) writeTimePart(hour int, min int, sec int, nsec int) {
 }
 
 func (enc *Encoder) writeTime(t time.Time) {
+	if t.Location() != time.UTC {
+		// the format only tells UTC from local time: a time in any other
+		// zone is written as the same instant in local time.
+		t = t.Local()
+	}
 	year, month, day := t.Date()
 	hour, min, sec := t.Clock()
 	nsec := t.Nanosecond()
